@@ -282,13 +282,29 @@ func LongRuns(target string, ns []int, gzip bool) Family {
 	return Family{Name: "D-" + target, Gen: func(c *fw.Ctx, emit Emit) {
 		t := sut.Get(target)
 		root := t.Schema()
-		patterns := []string{"none-null", "all-null", "alternating", "one-in-8", "lists-2"}
+		patterns := []string{"none-null", "all-null", "alternating", "one-in-8", "lists-2", "biglist"}
 		for _, n := range ns {
 			for pi, pat := range patterns {
 				f := &gen.Filler{}
 				recs := make([]refpq.Val, n)
-				for i := 0; i < n; i++ {
-					recs[i] = patterned(root, pat, i, f)
+				if pat == "biglist" {
+					// long lists: one record whose lists hold n elements,
+					// between two ordinary records
+					recs = []refpq.Val{patterned(root, "lists-2", 0, f), bigList(root, n, f), patterned(root, "alternating", 1, f)}
+				} else {
+					for i := 0; i < n; i++ {
+						recs[i] = patterned(root, pat, i, f)
+					}
+				}
+				if pat == "biglist" {
+					if !hasRepeated(root) {
+						continue
+					}
+					for _, cd := range codecs2 {
+						emit(fmt.Sprintf("n%d|biglist|p0|z%d", n, cd), t, recs, []int{3}, 0, cd)
+						emit(fmt.Sprintf("n%d|biglist|p1|z%d", n, cd), t, recs, []int{2, 1}, 1, cd)
+					}
+					continue
 				}
 				pages := []int{1, 7, 8, 9, 0, n}
 				for _, page := range pages {
@@ -310,6 +326,46 @@ func LongRuns(target string, ns []int, gzip bool) Family {
 			}
 		}
 	}}
+}
+
+func hasRepeated(n *refpq.Node) bool {
+	for _, l := range n.Leaves() {
+		if l.RepLevel > 0 {
+			return true
+		}
+	}
+	return false
+}
+
+// bigList builds a record whose outermost lists hold n elements (inner lists 1).
+func bigList(root *refpq.Node, n int, f *gen.Filler) refpq.Val {
+	var inner func(x *refpq.Node, depth int) refpq.Val
+	var node func(x *refpq.Node, depth int) refpq.Val
+	inner = func(x *refpq.Node, depth int) refpq.Val {
+		if x.Leaf {
+			return refpq.Val{Leaf: f.Next(x.GoKind)}
+		}
+		out := refpq.Val{Group: make([]refpq.Val, len(x.Children))}
+		for i, c := range x.Children {
+			out.Group[i] = node(c, depth)
+		}
+		return out
+	}
+	node = func(x *refpq.Node, depth int) refpq.Val {
+		if x.Rep == refpq.Repeated {
+			l := 1
+			if depth == 0 {
+				l = n
+			}
+			out := refpq.Val{}
+			for k := 0; k < l; k++ {
+				out.List = append(out.List, inner(x, depth+1))
+			}
+			return out
+		}
+		return inner(x, depth)
+	}
+	return inner(root, 0)
 }
 
 func patterned(root *refpq.Node, pat string, i int, f *gen.Filler) refpq.Val {
@@ -467,21 +523,21 @@ func ForC02Extra(thorough bool) []Family {
 func ForC03(thorough bool) []Family {
 	if !thorough {
 		return []Family{
-			StructureExhaustive("person", 2, 2, true, 60),
-			StructureExhaustive("document", 4, 2, true, 80),
-			StructureExhaustive("repetition", 4, 2, true, 80),
-			StructureExhaustive("readme", 4, 2, true, 0),
-			StructureExhaustive("mini", 4, 2, true, 0),
-			StructureExhaustive("flat3", 4, 3, true, 0),
+			StructureExhaustive("person", 3, 2, true, 120),
+			StructureExhaustive("document", 5, 2, true, 200),
+			StructureExhaustive("repetition", 5, 2, true, 200),
+			StructureExhaustive("readme", 5, 2, true, 200),
+			StructureExhaustive("mini", 5, 3, true, 0),
+			StructureExhaustive("flat3", 5, 3, true, 0),
 		}
 	}
 	return []Family{
-		StructureExhaustive("person", 4, 2, true, 150),
-		StructureExhaustive("document", 6, 2, true, 300),
-		StructureExhaustive("repetition", 6, 2, true, 300),
-		StructureExhaustive("readme", 6, 2, true, 300),
-		StructureExhaustive("mini", 6, 3, true, 0),
-		StructureExhaustive("flat3", 6, 3, true, 0),
+		StructureExhaustive("person", 4, 2, true, 250),
+		StructureExhaustive("document", 7, 3, true, 500),
+		StructureExhaustive("repetition", 7, 3, true, 500),
+		StructureExhaustive("readme", 7, 3, true, 500),
+		StructureExhaustive("mini", 7, 4, true, 600),
+		StructureExhaustive("flat3", 7, 4, true, 600),
 	}
 }
 
